@@ -34,6 +34,7 @@ def populate(t, rng, nbulk):
     t.add_file("t/two/mix.a", fc.ar([("z.o/", 1700000000, 1, 1, 100644, b"abcd")]))
     t.link("t/two/mix.a", "t/two/mix.gz")                                  # one inode, two extensions
     t.add_file("t/two/dir-\udcff\udcfe/inner.gz", fc.gz(1700000009))             # a UTF-8 name below a directory whose name is not UTF-8
+    t.add_file("t/two/name-\udcfe\udcff.gz", fc.gz(1700000010))                    # a file whose own name is not UTF-8 (the walk reports an error)
     t.symlink("one/g.gz", "t/link-to-file.gz")
     t.symlink("one", "t/link-to-dir")
     for i in range(nbulk):
@@ -230,10 +231,11 @@ def run(ctx):
                     fail("parallel-totals-differ", "%s: summary %s, serial %s" % (case, summ, rsum), case)
                 table.append({"case": case, "exit": rc, "summary": summ})
     # ---- order, repetition and overlap of the path arguments: same final state; same totals when the arguments do not overlap
-    arg_sets = [(("t/one", "t/two", "t/bulk"), True), (("t/bulk", "t/two", "t/one"), True), (("t/two", "t/one", "t/bulk", "t/link-to-file.gz"), True),
+    arg_sets = [(("t/one", "t/two", "t/bulk"), True), (("t/one", "t/two", "t/does-not-exist", "t/bulk"), True), (("t/bulk", "t/two", "t/one"), True), (("t/two", "t/one", "t/bulk", "t/link-to-file.gz"), True),
                 (("t", "t"), False), (("t", "t/one"), False), (("t/one", "t", "t/two/deeper"), False), (("t/one/g.gz", "t/one", "t"), False)]
     base_parts = None
     for rels, disjoint in arg_sets:
+        same_args_serial = None
         for mode in ([], ["-j3"], ["-j16"]):
             case = "%s args=%s" % (" ".join(mode) or "serial", ",".join(rels))
             rc, summ, state, out = one_run(seed, nbulk, mode, rel_args=rels)
@@ -246,8 +248,12 @@ def run(ctx):
                 fail("arguments-change-exit", "%s: exit status %d, serial run on the whole tree %d" % (case, rc, src), case)
             if disjoint and summ is not None:
                 key = ("processed", "modified", "replaced", "rewritten", "unsupported", "errors")
-                if any(summ[k] != ssum[k] for k in key):
-                    fail("disjoint-arguments-totals", "%s: summary %s, serial run on the whole tree %s" % (case, summ, ssum), case)
+                if not mode:
+                    same_args_serial = summ
+                    if not any("does-not-exist" in r for r in rels) and any(summ[k] != ssum[k] for k in key):
+                        fail("disjoint-arguments-totals", "%s: summary %s, serial run on the whole tree %s" % (case, summ, ssum), case)
+                elif same_args_serial is not None and any(summ[k] != same_args_serial[k] for k in key):
+                    fail("disjoint-arguments-totals", "%s: summary %s, serial run with the same arguments %s" % (case, summ, same_args_serial), case)
             table.append({"case": case, "exit": rc, "summary": summ})
     # ---- one dense directory: the controller lists it while the workers create and rename their temporary files in it
     def dense_run(args):
